@@ -742,3 +742,127 @@ Fixpoint failing_from {C} (verdict : C -> N) (i : N) (cs : list C) : list (N * N
   end.
 
 Definition failing17 (cs : list c17_case) : list (N * N) := failing_from c17_verdict 0%N cs.
+
+(** * Verified instance checker for C19 (soundness in Proofs/CalExpandFullProofs.v) *)
+
+Fixpoint entry_eqb (a b : entry) : bool :=
+  match a, b with
+  | EUnmod s t, EUnmod s' t' => N.eqb s s' && N.eqb t t'
+  | ERewr s src lo hi sub, ERewr s' src' lo' hi' sub' =>
+      N.eqb s s' && calsrc_eqb src src' && N.eqb lo lo' && N.eqb hi hi' &&
+      (fix go (l1 l2 : list entry) : bool :=
+         match l1, l2 with
+         | [], [] => true
+         | x :: t, y :: u => entry_eqb x y && go t u
+         | _, _ => false
+         end) sub sub'
+  | _, _ => false
+  end.
+
+Definition nthN {A} (l : list A) (n : N) : option A := nth_error l (N.to_nat n).
+
+(** instructions [lo, hi) of [l] *)
+Definition slice {A} (l : list A) (lo hi : N) : list A := firstn (N.to_nat (hi - lo)) (skipn (N.to_nat lo) l).
+
+(** One step of the walk over the entries of one level.  State [(ns, cur)]: the least admissible
+    next source index and the next uncovered target index.  [srcl] is the source of this level (the
+    program body, or the substituted body of the calibration one level up) and [outl] the output
+    instructions of this level (the parent's range).  An [Unmodified] entry must point at the cursor
+    and at an instruction identical to its source; a [Rewritten] entry must start at the cursor, name
+    the calibration that matches its source instruction, and its nested entries must, recursively,
+    walk that calibration's substituted body against exactly its range. *)
+Fixpoint chk_entry (inst : instr -> option (list instr * calsrc)) (srcl outl : list instr)
+         (st : N * N) (e : entry) {struct e} : option (N * N) :=
+  let '(ns, cur) := st in
+  match e with
+  | EUnmod s t =>
+      if N.leb ns s && N.eqb t cur then
+        match nthN srcl s, nthN outl t with
+        | Some x, Some y => if instr_eqb x y then Some (N.succ s, N.succ cur) else None
+        | _, _ => None
+        end
+      else None
+  | ERewr s src lo hi sub =>
+      if N.leb ns s && N.eqb lo cur && N.leb lo hi && N.leb hi (len outl) then
+        match nthN srcl s with
+        | Some x =>
+            match inst x with
+            | Some (body, src') =>
+                if calsrc_eqb src src' then
+                  match (fix walk (l : list entry) (st' : N * N) : option (N * N) :=
+                           match l with
+                           | [] => Some st'
+                           | e' :: r =>
+                               match chk_entry inst body (slice outl lo hi) st' e' with
+                               | Some st'' => walk r st''
+                               | None => None
+                               end
+                           end) sub (0%N, 0%N) with
+                  | Some (_, curb) => if N.eqb curb (hi - lo) then Some (N.succ s, hi) else None
+                  | None => None
+                  end
+                else None
+            | None => None
+            end
+        | None => None
+        end
+      else None
+  end.
+
+Fixpoint chk_walk inst (srcl outl : list instr) (es : list entry) (st : N * N) : option (N * N) :=
+  match es with
+  | [] => Some st
+  | e :: r => match chk_entry inst srcl outl st e with Some st' => chk_walk inst srcl outl r st' | None => None end
+  end.
+
+Definition chk_wfmap inst (src out : list instr) (m : list entry) : bool :=
+  match chk_walk inst src out m (0%N, 0%N) with
+  | Some (_, cur) => N.eqb cur (len out)
+  | None => false
+  end.
+
+(** queries: every target has exactly one source, every source at most one target entry, and that
+    entry contains the target *)
+Fixpoint range_N (n : nat) : list N :=
+  match n with O => [] | S k => range_N k ++ [N.of_nat k] end.
+
+Definition chk_queries (src out : list instr) (m : list entry) : bool :=
+  forallb (fun t => match list_sources m t with
+                    | [s] => existsb (fun e => entry_contains e t) (list_targets m s)
+                    | _ => false
+                    end) (range_N (length out)) &&
+  forallb (fun s => Nat.leb (length (list_targets m s)) 1) (range_N (length src)).
+
+(** ** C19 correspondence case: calibrations, program, and the implementation's result of
+    [expand_calibrations_with_source_map] (program, source map, and the answers of the real
+    [list_sources] for every target index and [list_targets] for every source index) or the
+    instruction reported as recursive.  [mode] as for C17. *)
+Definition c19_case :=
+  (N * cals * program * obs (program * list entry * (list (list N) * list (list entry))))%type.
+
+Definition c19_verdict (c : c19_case) : N :=
+  let '(mode, cs, p, o) := c in
+  let inst := instantiate cs in
+  let model := expand_program_sm inst default_fuel p in
+  match o with
+  | OErr i =>
+      if N.eqb mode 2 then 0%N
+      else match model with ErrRecursive j => if instr_eqb i j then 0%N else 1%N | _ => 1%N end
+  | OOk (p', m, (srcs, tgts)) =>
+      let prop_code :=
+        if negb (chk_wfmap inst (body p) (body p') m) then 2%N
+        else if negb (chk_queries (body p) (body p') m) then 3%N
+        else 0%N in
+      if negb (N.eqb mode 1) && negb (N.eqb prop_code 0) then prop_code
+      else if N.eqb mode 2 then 0%N
+      else match model with
+           | Ok (mp, mm) =>
+               if program_eqb mp p' && list_eqb entry_eqb mm m
+                  && list_eqb (list_eqb N.eqb) (map (list_sources m) (range_N (length (body p')))) srcs
+                  && list_eqb (list_eqb entry_eqb) (map (list_targets m) (range_N (length (body p)))) tgts
+               then 0%N else 1%N
+           | _ => 1%N
+           end
+  end.
+
+Definition failing19 (cs : list c19_case) : list (N * N) := failing_from c19_verdict 0%N cs.
